@@ -173,3 +173,59 @@ Theorem targetless_route_shadows :
   /\ lookup_cmd t2 (bs "shop.example.com") false (bs "/api/v1") MPrefix false = Some ([], bs "/", 1)
   /\ beats false false MPrefix (bs "shop.example.com", bs "/", 1) ([], bs "/", 1) = true.
 Proof. vm_compute. repeat split; reflexivity. Qed.
+
+(* ---- route.NewTableCustom (the custom registry backend): the same command loop on a command
+   list handed over as data.  Everything proved for tables reachable by commands holds for the
+   tables it returns; in particular a route emptied by a [route del] is gone when the table is
+   looked up (the invariant seeded change C03-O breaks for this constructor only), so the real
+   Table.lookup with its "no targets -> nil" branch ([lookup_cmd]) routes every request that
+   has a candidate and answers with the longest matching path of the answering host. ---- *)
+Theorem custom_table_reachable o t :
+  custom_table o = Ok t -> no_targetless t /\ wf_keys t /\ NoDup (keys t) /\ table_sorted t.
+Proof.
+  destruct o as [cs|]; cbn [custom_table]; [apply cmd_table_reachable | discriminate].
+Qed.
+
+Corollary custom_lookup_is_lookup o t host tls uri m globoff :
+  custom_table o = Ok t -> lookup_cmd t host tls uri m globoff = lookup t host tls uri m globoff.
+Proof. intros H. apply lookup_cmd_eq. now destruct (custom_table_reachable o t H). Qed.
+
+Theorem custom_nil_rejected : custom_table None = Err e_no_defs.
+Proof. reflexivity. Qed.
+
+Theorem custom_lookup_complete o t host tls uri m globoff c :
+  custom_table o = Ok t ->
+  In c (all_routes t) -> is_candidate globoff tls m host uri c = true ->
+  lookup_cmd t host tls uri m globoff <> None.
+Proof.
+  intros H Hin Hc. rewrite (custom_lookup_is_lookup o t host tls uri m globoff H).
+  destruct (custom_table_reachable o t H) as (_ & Hwf & Hnd & _).
+  exact (lookup_complete t host tls uri m globoff c Hwf Hnd Hin Hc).
+Qed.
+
+Theorem custom_prefix_longest_wins o t host tls uri globoff k p id :
+  custom_table o = Ok t ->
+  lookup_cmd t host tls uri MPrefix globoff = Some (k, p, id) ->
+  forall p' id', In (p', id') (assoc t k) -> has_prefix uri p' = true ->
+                 (length p' <= length p)%nat.
+Proof.
+  intros H. rewrite (custom_lookup_is_lookup o t host tls uri MPrefix globoff H).
+  destruct (custom_table_reachable o t H) as (_ & _ & _ & Hs).
+  exact (prefix_longest_wins t host tls uri globoff k p id Hs).
+Qed.
+
+(* non-vacuity, and the history of C03-O: add site shop.example.com/, add api-v1
+   shop.example.com/api, del api-v1 : the request for /api/users is answered by the remaining
+   route shop.example.com/ (its only candidate), not by nil *)
+Theorem custom_del_falls_to_shorter :
+  let h := bs "shop.example.com" in
+  let cs : list cdef :=
+    [(0, bs "site", bs "shop.example.com/", bs "http://u0.internal:80/", (0, 0), []);
+     (0, bs "api-v1", bs "shop.example.com/api", bs "http://u1.internal:80/", (0, 0), []);
+     (1, bs "api-v1", [], [], (0, 0), [])] in
+  exists t, custom_table (Some cs) = Ok t
+    /\ candidates t false false MPrefix h (bs "/api/users") = [(h, bs "/", 1)]
+    /\ lookup_cmd t h false (bs "/api/users") MPrefix false = Some (h, bs "/", 1)
+    /\ spec_b t false false MPrefix h (bs "/api/users") (Some (h, bs "/", 1)) = true
+    /\ spec_b t false false MPrefix h (bs "/api/users") None = false.
+Proof. vm_compute. eexists. repeat split; reflexivity. Qed.
